@@ -43,13 +43,14 @@ func ZZ_C16_Confirm() {
 	k.SetOutgoingTx(ctx, chain, &types.SignerSetTx{Nonce: ssNonce, Height: 3})
 	bNonceA := 1 + vrt.Uint64Below("batchA.nonce", 1<<56)
 	k.SetOutgoingTx(ctx, chain, &types.BatchTx{BatchNonce: bNonceA, Timeout: 9, ExternalTokenId: zzEthTokA, Height: 3})
-	haveB := vrt.Thorough() && vrt.Bool("haveBatchB")
+	haveB := true
 	bNonceB := 1 + vrt.Uint64Below("batchB.nonce", 1<<56)
 	if haveB {
 		k.SetOutgoingTx(ctx, chain, &types.BatchTx{BatchNonce: bNonceB, Timeout: 9, ExternalTokenId: zzEthTokB, Height: 3})
 	}
 	idxSS := types.MakeSignerSetTxKey(chain, ssNonce)
 	idxA := types.MakeBatchTxKey(chain, zzEthTokA, bNonceA)
+	idxB := types.MakeBatchTxKey(chain, zzEthTokB, bNonceB)
 	// signatures already stored: validator 1 on the signer set and/or on batch A
 	var stored []zzStoredSig
 	if vrt.Bool("v1.signed.ss") {
@@ -61,6 +62,11 @@ func ZZ_C16_Confirm() {
 		s := vrt.Bytes("oldsig.a", 2)
 		k.SetExternalSignature(ctx, chain, &types.BatchTxConfirmation{ExternalTokenId: zzEthTokA, BatchNonce: bNonceA, Signature: s}, vs[1].Oper)
 		stored = append(stored, zzStoredSig{idxA, 1, s})
+	}
+	if haveB && vrt.Bool("v1.signed.b") {
+		s := vrt.Bytes("oldsig.b", 2)
+		k.SetExternalSignature(ctx, chain, &types.BatchTxConfirmation{ExternalTokenId: zzEthTokB, BatchNonce: bNonceB, Signature: s}, vs[1].Oper)
+		stored = append(stored, zzStoredSig{idxB, 1, s})
 	}
 	// the message
 	signers := []sdk.AccAddress{orch, stranger, sdk.AccAddress(vs[0].Oper), sdk.AccAddress(vs[1].Oper)}
@@ -154,6 +160,19 @@ func ZZ_C16_Confirm() {
 				}
 			}
 			vrt.Assert("c16.unsigned.batch-listed-iff-not-signed", hasA == !signedA)
+			signedB, hasB := false, false
+			for _, s := range stored {
+				if s.val == 1 && bytes.Equal(s.index, idxB) {
+					signedB = true
+				}
+			}
+			for _, b := range ub.Batches {
+				if b.ExternalTokenId == zzEthTokB && b.BatchNonce == bNonceB {
+					hasB = true
+				}
+			}
+			vrt.Assert("c16.unsigned.second-batch-listed-iff-not-signed", hasB == !signedB)
+			vrt.Assert("c16.unsigned.nothing-else-listed", len(ub.Batches) <= 2)
 			us, _ := k.UnsignedSignerSetTxs(sdk.WrapSDKContext(ctx), &types.UnsignedSignerSetTxsRequest{Address: sdk.AccAddress(vs[1].Oper).String(), ChainId: chain.String()})
 			signedSS := false
 			for _, s := range stored {
@@ -205,6 +224,15 @@ func ZZ_C17_DelegateKeys() {
 			k.SetOrchestratorValidatorAddress(ctx, chain, oper, b.orch)
 			k.setValidatorExternalAddress(ctx, chain, oper, b.ext)
 			k.setExternalOrchestratorAddress(ctx, chain, b.ext, b.orch)
+			if vrt.Bool("alsoOtherChains" + s) { // operators use the same keys on every chain
+				for _, oc := range []types.ChainID{"bsc", "ethereum", "minter"} {
+					if oc != chain {
+						k.SetOrchestratorValidatorAddress(ctx, oc, oper, b.orch)
+						k.setValidatorExternalAddress(ctx, oc, oper, b.ext)
+						k.setExternalOrchestratorAddress(ctx, oc, b.ext, b.orch)
+					}
+				}
+			}
 		}
 		binds = append(binds, b)
 	}
@@ -220,9 +248,21 @@ func ZZ_C17_DelegateKeys() {
 		}
 	}
 	newOrch := sdk.AccAddress(vrt.Bytes("neworch", 20))
+	seq := vrt.Uint64Below("sequence", 1<<56)
 	newExt := common.BytesToAddress(vrt.Bytes("newext", 20))
 	sig := vrt.Bytes("sig", 65)
-	seq := vrt.Uint64Below("sequence", 1<<56)
+	if !vrt.Symbolic() {
+		// native replay: signatures cannot be forged, so the external key is a real test key and the signature
+		// is a real one over (validator, sequence-1); everything else comes from the solver's assignment
+		key, _ := crypto.HexToECDSA("b71c71a67e1177ad4e901695e1b4b9ee17ae16c6668d313eac2f96dbcda3f291")
+		newExt = crypto.PubkeyToAddress(key.PublicKey)
+		n := uint64(0)
+		if seq > 0 {
+			n = seq - 1
+		}
+		bz := k.cdc.MustMarshal(&types.DelegateKeysSignMsg{ValidatorAddress: msgVal.String(), Nonce: n})
+		sig, _ = types.NewEthereumSignature(crypto.Keccak256Hash(bz).Bytes(), key)
+	}
 	if vrt.Bool("hasAccount") {
 		env.Account.Addrs = append(env.Account.Addrs, sdk.AccAddress(msgVal))
 		env.Account.Seqs = append(env.Account.Seqs, seq)
